@@ -391,3 +391,171 @@ Proof.
   f_equal. rewrite map_map. rewrite (map_ext _ id); [rewrite map_id; apply list_to_map_to_list|].
   intros [nm [s e]]. reflexivity.
 Qed.
+
+(* ---------- ActiveData-ETL ---------- *)
+Lemma elem_of_map_fst {A B} (l : list (A * B)) x : x ∈ map fst l <-> exists y, (x, y) ∈ l.
+Proof.
+  change (map fst l) with (fst <$> l). rewrite elem_of_list_fmap. split.
+  - intros ([a b] & -> & H). eauto.
+  - intros (y & H). exists (x, y). auto.
+Qed.
+Lemma NoDup_map_fst_filter {A B} (P : A * B -> Prop) `{forall x, Decision (P x)} (l : list (A * B)) :
+  NoDup (map fst l) -> NoDup (map fst (filter P l)).
+Proof.
+  induction l as [|x l IH]; intros Hnd; [constructor|].
+  cbn [map] in Hnd. apply NoDup_cons in Hnd as [Hx Hnd]. rewrite filter_cons.
+  destruct (decide (P x)); [|auto]. cbn [map]. apply NoDup_cons. split; [|auto].
+  intros Hin. apply Hx. apply elem_of_map_fst in Hin as (y & Hy). apply elem_of_list_filter in Hy as [_ Hy].
+  apply elem_of_map_fst. eauto.
+Qed.
+Lemma sorted_kv_NoDup {A} (m : gmap N A) : NoDup (map fst (sorted_kv m)).
+Proof. change (NoDup (sorted_kv m).*1). rewrite sorted_kv_perm. apply NoDup_fst_map_to_list. Qed.
+
+Lemma elem_of_ade_covered c l : l ∈ ade_covered c <-> exists n, c_lines c !! l = Some n /\ 0 < n.
+Proof.
+  unfold ade_covered. rewrite elem_of_map_fst. split.
+  - intros (v & H). apply elem_of_list_filter in H as [Hp H]. apply elem_of_sorted_kv in H. cbn [snd] in Hp. exists v. split; [exact H|lia].
+  - intros (n & H & Hn). exists n. apply elem_of_list_filter. split; [cbn [snd]; lia|apply elem_of_sorted_kv, H].
+Qed.
+Lemma elem_of_ade_uncovered c l : l ∈ ade_uncovered c <-> c_lines c !! l = Some 0.
+Proof.
+  unfold ade_uncovered. rewrite elem_of_map_fst. split.
+  - intros (v & H). apply elem_of_list_filter in H as [Hp H]. apply elem_of_sorted_kv in H. cbn [snd] in Hp.
+    replace v with 0 in H by lia. exact H.
+  - intros H. exists 0. apply elem_of_list_filter. split; [reflexivity|apply elem_of_sorted_kv, H].
+Qed.
+Lemma ade_file_lines_lem rel c :
+  let F := encode_ade_file rel c in
+  af_name F = rel /\
+  (forall l, l ∈ ap_covered (af_file F) <-> exists n, c_lines c !! l = Some n /\ 0 < n) /\
+  (forall l, l ∈ ap_uncovered (af_file F) <-> c_lines c !! l = Some 0) /\
+  NoDup (ap_covered (af_file F)) /\ NoDup (ap_uncovered (af_file F)).
+Proof.
+  cbn zeta. unfold encode_ade_file. cbn [af_name af_file ade_part_of ap_covered ap_uncovered].
+  split_and!; [reflexivity|apply elem_of_ade_covered|apply elem_of_ade_uncovered| |];
+    apply NoDup_map_fst_filter, sorted_kv_NoDup.
+Qed.
+
+(* where a function ends *)
+Lemma filter_head_min (P : N -> Prop) `{forall x, Decision (P x)} (l : list N) x r :
+  StronglySorted N.le l -> filter P l = x :: r -> x ∈ l /\ P x /\ forall y, y ∈ l -> P y -> x <= y.
+Proof.
+  induction 1 as [|a l Hs IH Hall]; intros Hf; [discriminate|].
+  rewrite filter_cons in Hf. destruct (decide (P a)) as [Ha|Ha].
+  - injection Hf as <- _. split; [left|]. split; [exact Ha|].
+    intros y Hy _. apply elem_of_cons in Hy as [->|Hy]; [lia|]. rewrite Forall_forall in Hall. apply Hall, Hy.
+  - destruct (IH Hf) as (Hin & Hp & Hmin). split; [right; exact Hin|]. split; [exact Hp|].
+    intros y Hy Py. apply elem_of_cons in Hy as [->|Hy]; [contradiction|]. apply Hmin; assumption.
+Qed.
+Lemma ade_starts_sorted c : StronglySorted N.le (ade_starts c).
+Proof. unfold ade_starts. apply (StronglySorted_merge_sort _). Qed.
+Lemma elem_of_ade_starts c y : y ∈ ade_starts c <-> exists nm f, c_funcs c !! nm = Some f /\ f_start f = y.
+Proof.
+  unfold ade_starts. rewrite merge_sort_Permutation.
+  change (map (fun p : name * func => f_start p.2) (map_to_list (c_funcs c))) with ((fun p : name * func => f_start p.2) <$> map_to_list (c_funcs c)).
+  rewrite elem_of_list_fmap. split.
+  - intros ([nm f] & -> & H). apply elem_of_map_to_list in H. eauto.
+  - intros (nm & f & H & <-). exists (nm, f). split; [reflexivity|]. apply elem_of_map_to_list, H.
+Qed.
+Lemma ade_func_end_lem c f :
+  let fe := ade_fend c f in
+  (forall nm' f', c_funcs c !! nm' = Some f' -> f_start f < f_start f' -> fe <= f_start f') /\
+  ((fe = ade_end c /\ forall nm' f', c_funcs c !! nm' = Some f' -> f_start f' <= f_start f) \/
+   (exists nm' f', c_funcs c !! nm' = Some f' /\ f_start f' = fe /\ f_start f < fe)).
+Proof.
+  cbn zeta. unfold ade_fend, ade_func_end.
+  destruct (filter (fun x => f_start f < x) (ade_starts c)) as [|x r] eqn:E.
+  - split.
+    + intros nm' f' H Hlt. exfalso.
+      assert (f_start f' ∈ filter (fun x => f_start f < x) (ade_starts c)) as Hin.
+      { apply elem_of_list_filter. split; [exact Hlt|]. apply elem_of_ade_starts. eauto. }
+      rewrite E in Hin. inversion Hin.
+    + left. split; [reflexivity|]. intros nm' f' H. destruct (decide (f_start f < f_start f')) as [Hlt|]; [|lia]. exfalso.
+      assert (f_start f' ∈ filter (fun x => f_start f < x) (ade_starts c)) as Hin.
+      { apply elem_of_list_filter. split; [exact Hlt|]. apply elem_of_ade_starts. eauto. }
+      rewrite E in Hin. inversion Hin.
+  - destruct (filter_head_min _ _ _ _ (ade_starts_sorted c) E) as (Hin & Hp & Hmin). split.
+    + intros nm' f' H Hlt. apply Hmin; [|exact Hlt]. apply elem_of_ade_starts. eauto.
+    + right. apply elem_of_ade_starts in Hin as (nm' & f' & H & Hs). eauto.
+Qed.
+
+Lemma ade_method_range_lem c f l :
+  (l ∈ ap_covered (ade_method c f) <-> (exists n, c_lines c !! l = Some n /\ 0 < n) /\ f_start f <= l /\ l < ade_fend c f) /\
+  (l ∈ ap_uncovered (ade_method c f) <-> c_lines c !! l = Some 0 /\ f_start f <= l /\ l < ade_fend c f).
+Proof.
+  unfold ade_method. cbn [ade_part_of ap_covered ap_uncovered].
+  rewrite !elem_of_list_filter, elem_of_ade_covered, elem_of_ade_uncovered. unfold in_range.
+  split; split; intros [H1 H2]; (split; [tauto || auto|]); try lia; tauto.
+Qed.
+
+Lemma elem_of_ade_methods c nm m :
+  (nm, m) ∈ ade_methods c <-> exists f, c_funcs c !! nm = Some f /\ m = ade_method c f.
+Proof.
+  unfold ade_methods.
+  change (map (fun p : name * func => (p.1, ade_method c p.2)) (map_to_list (c_funcs c)))
+    with ((fun p : name * func => (p.1, ade_method c p.2)) <$> map_to_list (c_funcs c)).
+  rewrite elem_of_list_fmap. split.
+  - intros ([nm' f] & [= -> ->] & H). apply elem_of_map_to_list in H. eauto.
+  - intros (f & H & ->). exists (nm, f). split; [reflexivity|]. apply elem_of_map_to_list, H.
+Qed.
+Lemma ade_functions_lem rel c :
+  let F := encode_ade_file rel c in
+  map fst (af_methods F) = map fst (map_to_list (c_funcs c)) /\ NoDup (map fst (af_methods F)) /\
+  (forall nm m, (nm, m) ∈ af_methods F <-> exists f, c_funcs c !! nm = Some f /\ m = ade_method c f).
+Proof.
+  cbn zeta. unfold encode_ade_file. cbn [af_methods].
+  assert (map fst (ade_methods c) = map fst (map_to_list (c_funcs c))) as E.
+  { unfold ade_methods. rewrite map_map. apply map_ext. intros [nm f]. reflexivity. }
+  split_and!; [exact E|rewrite E; apply (NoDup_fst_map_to_list (c_funcs c))|apply elem_of_ade_methods].
+Qed.
+
+(* every line of the file is an orphan or in some method's list; an orphan is in no method's list *)
+Lemma ade_orphan_spec (ms : list (name * ade_part)) (sel : ade_part -> list N) (ls : list N) l :
+  (l ∈ ade_orphan ms sel ls <-> l ∈ ls /\ forall m, m ∈ ms -> l ∉ sel m.2) /\
+  (l ∈ ls -> l ∈ ade_orphan ms sel ls \/ exists m, m ∈ ms /\ l ∈ sel m.2).
+Proof.
+  unfold ade_orphan. split.
+  - rewrite elem_of_list_filter, Forall_forall. tauto.
+  - intros Hl. destruct (decide (Forall (fun m : name * ade_part => l ∉ sel m.2) ms)) as [Ha|Hn].
+    + left. apply elem_of_list_filter. auto.
+    + right. apply not_Forall_Exists in Hn; [|apply _]. apply Exists_exists in Hn as (m & Hm & Hin).
+      exists m. split; [exact Hm|]. destruct (decide (l ∈ sel m.2)); [assumption|contradiction].
+Qed.
+Lemma ade_cover_lem rel c l :
+  let F := encode_ade_file rel c in
+  (l ∈ ap_covered (af_file F) -> l ∈ ap_covered (af_orphan F) \/ exists m, m ∈ af_methods F /\ l ∈ ap_covered m.2) /\
+  (l ∈ ap_uncovered (af_file F) -> l ∈ ap_uncovered (af_orphan F) \/ exists m, m ∈ af_methods F /\ l ∈ ap_uncovered m.2) /\
+  (l ∈ ap_covered (af_orphan F) <-> l ∈ ap_covered (af_file F) /\ forall m, m ∈ af_methods F -> l ∉ ap_covered m.2) /\
+  (l ∈ ap_uncovered (af_orphan F) <-> l ∈ ap_uncovered (af_file F) /\ forall m, m ∈ af_methods F -> l ∉ ap_uncovered m.2) /\
+  (forall m, m ∈ af_methods F -> (l ∈ ap_covered m.2 -> l ∈ ap_covered (af_file F)) /\ (l ∈ ap_uncovered m.2 -> l ∈ ap_uncovered (af_file F))).
+Proof.
+  cbn zeta. unfold encode_ade_file. cbn [af_file af_orphan af_methods ade_part_of ap_covered ap_uncovered].
+  split_and!; try apply ade_orphan_spec.
+  intros [nm m] Hm. apply elem_of_ade_methods in Hm as (f & _ & ->). cbn [snd]. unfold ade_method. cbn [ade_part_of ap_covered ap_uncovered].
+  rewrite !elem_of_list_filter. tauto.
+Qed.
+
+(* totals (C13): every total_covered / total_uncovered is the length of its list; the file's two totals add up to the lines *)
+Lemma filter_pos_zero_length (ls : list (N * N)) :
+  Nat.add (length (filter (fun p : N * N => 0 <? p.2 = true) ls)) (length (filter (fun p : N * N => p.2 =? 0 = true) ls)) = length ls.
+Proof.
+  induction ls as [|e ls IH]; [reflexivity|]. rewrite !filter_cons.
+  destruct (decide (0 <? e.2 = true)), (decide (e.2 =? 0 = true)); cbn [length]; lia.
+Qed.
+Lemma ade_totals_lem rel c :
+  let F := encode_ade_file rel c in
+  ap_total_covered (af_file F) = nlen (ap_covered (af_file F)) /\ ap_total_uncovered (af_file F) = nlen (ap_uncovered (af_file F)) /\
+  ap_total_covered (af_orphan F) = nlen (ap_covered (af_orphan F)) /\ ap_total_uncovered (af_orphan F) = nlen (ap_uncovered (af_orphan F)) /\
+  (forall m, m ∈ af_methods F -> ap_total_covered m.2 = nlen (ap_covered m.2) /\ ap_total_uncovered m.2 = nlen (ap_uncovered m.2)) /\
+  ap_total_covered (af_file F) = covered_lines (map_to_list (c_lines c)) /\
+  ap_total_covered (af_file F) + ap_total_uncovered (af_file F) = N.of_nat (size (c_lines c)).
+Proof.
+  cbn zeta. unfold encode_ade_file. cbn [af_file af_orphan af_methods ade_part_of ap_covered ap_uncovered ap_total_covered ap_total_uncovered].
+  split_and!; try reflexivity.
+  - intros [nm m] Hm. apply elem_of_ade_methods in Hm as (f & _ & ->). split; reflexivity.
+  - unfold ade_covered, covered_lines, nlen. rewrite map_length. rewrite (sorted_kv_perm (c_lines c)). reflexivity.
+  - unfold ade_covered, ade_uncovered, nlen. rewrite !map_length.
+    pose proof (filter_pos_zero_length (sorted_kv (c_lines c))) as H.
+    assert (length (sorted_kv (c_lines c)) = size (c_lines c)) as E by (rewrite (sorted_kv_perm (c_lines c)); reflexivity).
+    lia.
+Qed.
